@@ -100,3 +100,9 @@ Definition xconn_case_ok (k : xconn_case) : bool :=
   | (c, b, closed) => let s := feed (x_parse c) init b in Bool.eqb (dead s) closed && negb (stuck s)
   end.
 Definition xconn_mismatches (l : list xconn_case) : list nat := mism xconn_case_ok 0 l.
+
+(* dubbo-thrift slow path: (bytes written by the thrift library for service name + id, new payload, bytes observed) *)
+Definition xslow_case := (bytes * bytes * bytes)%type.
+Definition xslow_case_ok (k : xslow_case) : bool :=
+  match k with (lib, payload, o) => beq (thrift_encode_slow (fun _ _ => lib) [] 0 payload) o end.
+Definition xslow_mismatches (l : list xslow_case) : list nat := mism xslow_case_ok 0 l.
